@@ -4,13 +4,21 @@ package main
 //
 //	auth <suite> <clientauth> <attack> <ccert> <isv> [param…]
 //
-// runs a real gmtls client against a real gmtls server over an in-memory connection. The attack is applied
-// by mis-configuring the malicious end (names s-…, and the client-certificate kind <ccert>), by a man in the
-// middle that holds keys and forges one message (names ske-…, cke-…: a scripted malicious peer), or by a man
-// in the middle that rewrites one field of one message in transit (names mitm-…).
-// Result: "c=<done|abort> s=<done|abort>" for the first two families, the canonical "abort" / "both-done"
-// for mitm-… ; ORACLE-FAIL:… when both ends complete with different views, or an honest end panics or hangs.
-// The Lean driver (Driver/HandshakeAuth.lean) computes the verdict of Model.HandshakeAuth for the same line.
+// runs a real gmtls client against a real gmtls server over an in-memory connection (suite e013 | e053,
+// clientauth none | request | requireany | verifyifgiven | requireverify, ccert = what the client presents:
+// absent | trusted | untrusted | expired | notyet | wrongeku | wrongkey | chainlast, isv = InsecureSkipVerify 0 | 1).
+// The attack is applied
+//   - by mis-configuring the malicious end: s-… (certificates / private keys of the server), <ccert>;
+//   - by scripting the malicious end so that its transcript stays consistent: ske-… and cv-… (the end's "private
+//     key" is a crypto.Signer that signs other data, with another key, or replays a signature of another session),
+//     s-ske-omitted, s-fin-…, c-fin-… (the scripted peers of gmtls/export_verif_c08.go), cke-forge (a man in the
+//     middle substituting its own pre-master secret);
+//   - by a man in the middle rewriting one field of one plaintext handshake message, or dropping / duplicating /
+//     bit-flipping a message: mitm-… .
+// Result: "c=<done|abort> s=<done|abort>" for the first two families, the canonical "abort" / "both-done" for
+// mitm-… ; ORACLE-FAIL:… when both ends complete with different views, when the client completes without a
+// verified chain, when the server completes although a message it hashed was altered, or when an end panics or
+// hangs. The Lean driver (Driver/HandshakeAuth.lean) computes the verdict of Model.HandshakeAuth for the same line.
 
 import (
 	"bytes"
@@ -40,7 +48,7 @@ type c08Certs struct {
 	expSign, expEnc, nySign, nyEnc          gmtls.Certificate
 	nameSign, nameEnc                       gmtls.Certificate
 	nokuSign, nokuEnc, kusignEnc, kuencSign gmtls.Certificate
-	dual                                    gmtls.Certificate
+	dual, ekuSign, ekuEnc                   gmtls.Certificate
 	rsa, p256                               []byte // DER of non-SM2 certificates
 	cExp, cNy, cEku                         gmtls.Certificate
 }
@@ -73,6 +81,8 @@ func c08pki() (*gmPKI, *gmPKI, *c08Certs) {
 		c.kusignEnc = m.issue(leafOpt{cn: "gm.test", dns: gm, ku: kuSign, eku: srv, keyID: 2002})
 		c.kuencSign = m.issue(leafOpt{cn: "gm.test", dns: gm, ku: kuEnc, eku: srv, keyID: 2001})
 		c.dual = m.issue(leafOpt{cn: "gm.test", dns: gm, ku: kuSign | kuEnc, eku: srv, keyID: 2001})
+		c.ekuSign = m.issue(leafOpt{cn: "gm.test", dns: gm, ku: kuSign, eku: cli, keyID: 2001})
+		c.ekuEnc = m.issue(leafOpt{cn: "gm.test", dns: gm, ku: kuEnc, eku: cli, keyID: 2002})
 		c.rsa = std.rsaServer.Certificate[0]
 		c.p256 = std.ecServer.Certificate[0]
 		c.cExp = m.issue(leafOpt{cn: "main client", ku: kuSign, eku: cli, keyID: 2003, notBefore: past0, notAfter: past1})
@@ -545,6 +555,10 @@ func c08EvalAuth(args []string) string {
 	case "wrongkey":
 		c := c08WithKey(m.client.Certificate[0], 2950)
 		cc = &c
+	case "chainlast":
+		// [the victim's genuine certificate, the attacker's own certificate], CertificateVerify by the attacker's key
+		c := gmtls.Certificate{Certificate: [][]byte{m.client.Certificate[0], o.client.Certificate[0]}, PrivateKey: o.client.PrivateKey}
+		cc = &c
 	default:
 		return "bad-op"
 	}
@@ -586,6 +600,11 @@ func c08EvalAuth(args []string) string {
 		sc(m.sign, c08WithKey(m.enc.Certificate[0], 2951))
 	case "s-untrusted":
 		sc(o.sign, o.enc)
+	case "s-untrusted-withca":
+		// an untrusted server that appends its own CA as third entry of the Certificate message
+		e := o.enc
+		e.Certificate = [][]byte{o.enc.Certificate[0], o.ca.Raw}
+		sc(o.sign, e)
 	case "s-untrusted-sign":
 		sc(o.sign, m.enc)
 	case "s-untrusted-enc":
@@ -622,6 +641,10 @@ func c08EvalAuth(args []string) string {
 		sc(x.kuencSign, m.enc)
 	case "s-dual":
 		sc(x.dual, x.dual)
+	case "s-wrongeku-sign":
+		sc(x.ekuSign, m.enc)
+	case "s-wrongeku-enc":
+		sc(m.sign, x.ekuEnc)
 
 	// scripted peers that keep a consistent transcript: a server that never sends ServerKeyExchange, a server /
 	// client whose Finished is right in its first byte(s) only, or wrong in its last bit only
@@ -1111,9 +1134,9 @@ func c08ClientAuthenticated(st *c08Setup, res *pairResult, m *gmPKI) string {
 
 // ---- generator -------------------------------------------------------------------------------------------------------
 
-var c08ServerAttacks = []string{"s-signkey-wrong", "s-enckey-wrong", "s-untrusted", "s-untrusted-sign", "s-untrusted-enc",
+var c08ServerAttacks = []string{"s-signkey-wrong", "s-enckey-wrong", "s-untrusted", "s-untrusted-withca", "s-untrusted-sign", "s-untrusted-enc",
 	"s-expired-sign", "s-expired-enc", "s-notyet-sign", "s-notyet-enc", "s-wrongname-sign", "s-wrongname-enc",
-	"s-rsa-sign", "s-rsa-enc", "s-p256-sign", "s-p256-enc", "s-swapped", "s-noku-sign", "s-noku-enc", "s-kusign-enc", "s-kuenc-sign", "s-dual",
+	"s-rsa-sign", "s-rsa-enc", "s-p256-sign", "s-p256-enc", "s-swapped", "s-noku-sign", "s-noku-enc", "s-kusign-enc", "s-kuenc-sign", "s-dual", "s-wrongeku-sign", "s-wrongeku-enc",
 	"ske-otherrandoms", "ske-otherclientrandom", "ske-otherserverrandom", "ske-swaprandoms", "ske-othercert", "ske-nolen",
 	"ske-by-enckey", "ske-by-otherkey", "ske-empty", "ske-replay", "cke-forge",
 	"s-ske-omitted", "s-fin-firstbyte", "s-fin-first11", "s-fin-lastbit", "c-fin-firstbyte", "c-fin-first11", "c-fin-lastbit"}
@@ -1132,7 +1155,7 @@ var c08MitmAttacks = []string{"mitm-ch-version", "mitm-ch-version-low", "mitm-ch
 func c08Gen(r *rng, tier string, emit func(string)) {
 	suites := []string{"e013", "e053"}
 	policies := []string{"none", "request", "requireany", "verifyifgiven", "requireverify"}
-	ccerts := []string{"absent", "trusted", "untrusted", "expired", "notyet", "wrongeku", "wrongkey"}
+	ccerts := []string{"absent", "trusted", "untrusted", "expired", "notyet", "wrongeku", "wrongkey", "chainlast"}
 	op := func(suite, pol, attack, cc string, isv int, params ...int) {
 		s := fmt.Sprintf("auth %s %s %s %s %d", suite, pol, attack, cc, isv)
 		for _, p := range params {
@@ -1197,6 +1220,16 @@ func c08Gen(r *rng, tier string, emit func(string)) {
 			}
 		}
 		if tier == "thorough" {
+			for dir := 0; dir < 2; dir++ {
+				for idx, l := range lens[dir] {
+					if dir == 0 && idx > 1 || dir == 1 && idx > 3 {
+						continue // the handshake without client authentication has fewer messages
+					}
+					for off := 0; off < l+2; off++ {
+						op(su, "none", "mitm-flip", "absent", r.intn(2), dir, idx, off, 1<<uint(r.intn(8)))
+					}
+				}
+			}
 			for _, pol := range policies {
 				for _, cc := range ccerts {
 					for _, a := range c08MitmAttacks {
